@@ -168,3 +168,119 @@ func init() {
 		return f
 	})
 }
+
+func init() {
+	// late: the iso alphabet plus every operation through handles of finished transactions and through
+	// a transaction id the database never issued; all live actors (and the finished handles) read
+	// after every step; restart at the end (C13).
+	seq.Register("late", func(p string) *seq.Family {
+		m := params(p)
+		slots := atoi(m["slots"], 2)
+		lv := levels(m["levels"])
+		unknown := atoi(m["unknown"], 1) != 0
+		lastOnly := atoi(m["latewrites"], 0) == 0 // latewrites=1: late writes at every position
+		keys := keyNames[:1]
+		f := &seq.Family{Opt: seq.Options{Slots: slots, ObsKeys: append(append([]string{}, keys...), neverKey), Spec: spec(), LateObs: true}}
+		f.Opt.Epilogue = func(r *seq.Runner) *seq.Mismatch {
+			op := seq.Op{Kind: seq.Restart}
+			if mm := r.Apply(op); mm != nil {
+				return mm
+			}
+			return r.Observe(op)
+		}
+		f.Next = func(md *model.Model, hist []seq.Op, left int) []seq.Op {
+			var out []seq.Op
+			k := keys[0]
+			out = append(out, seq.Op{Kind: seq.Set, Actor: model.Auto, Key: k})
+			if s := md.FreeSlot(); s >= 0 && left > 1 {
+				for _, l := range lv {
+					out = append(out, seq.Op{Kind: seq.Begin, Actor: s, Level: l})
+				}
+			}
+			for _, s := range md.OpenSlots() {
+				out = append(out, seq.Op{Kind: seq.Set, Actor: s, Key: k}, seq.Op{Kind: seq.Commit, Actor: s}, seq.Op{Kind: seq.Rollback, Actor: s})
+			}
+			late := func(a int) {
+				out = append(out,
+					seq.Op{Kind: seq.GetOp, Actor: a, Key: k},
+					seq.Op{Kind: seq.GetReaderOp, Actor: a, Key: k},
+					seq.Op{Kind: seq.GetKeysOp, Actor: a})
+				if left == 1 || !lastOnly {
+					// late writes are known to succeed (D5, known finding) and end the history there: as the
+					// last operation they do not hide what follows
+					out = append(out,
+						seq.Op{Kind: seq.Set, Actor: a, Key: k},
+						seq.Op{Kind: seq.SetReader, Actor: a, Key: k},
+						seq.Op{Kind: seq.Create, Actor: a, Key: k, Split: []int{4, 4}},
+						seq.Op{Kind: seq.Delete, Actor: a, Key: k})
+				}
+				if a >= 0 {
+					out = append(out, seq.Op{Kind: seq.Commit, Actor: a}, seq.Op{Kind: seq.Rollback, Actor: a})
+				}
+			}
+			for s := range md.Txs {
+				if md.Finished(s) {
+					late(s)
+				}
+			}
+			if unknown {
+				late(seq.Unknown)
+			}
+			return out
+		}
+		return f
+	})
+
+	// disk: the iso alphabet (no GC inside) followed by the reclamation epilogue: end every open
+	// transaction, settle, one GC pass, settle, then walk the roots (C14). close=1: Close right after the
+	// history with work possibly pending, restart, then the same epilogue.
+	seq.Register("disk", func(p string) *seq.Family {
+		m := params(p)
+		base := seq.Lookup("iso", p+",gc=0")
+		closeFirst := atoi(m["close"], 0) != 0
+		f := &seq.Family{Opt: base.Opt, Next: base.Next}
+		f.Opt.Epilogue = func(r *seq.Runner) *seq.Mismatch { return DiskEpilogue(r, closeFirst) }
+		return f
+	})
+
+	// gcdiff: GC-free histories with the collector inserted at every subset (size <= maxgc) of positions;
+	// all actors read after every step (C09).
+	seq.Register("gcdiff", func(p string) *seq.Family {
+		m := params(p)
+		base := seq.Lookup("iso", p+",gc=0")
+		maxgc := atoi(m["maxgc"], 2)
+		f := &seq.Family{Opt: base.Opt, Next: base.Next}
+		f.Variants = func(hist []seq.Op) [][]seq.Op {
+			n := len(hist) + 1 // positions: before op i (0..len-1) and at the end
+			var out [][]seq.Op
+			var rec func(pos int, chosen []int)
+			rec = func(pos int, chosen []int) {
+				if pos == n {
+					if len(chosen) == 0 {
+						return // the GC-free run is the model itself; it is covered by C02
+					}
+					var h []seq.Op
+					ci := 0
+					for i := 0; i <= len(hist); i++ {
+						if ci < len(chosen) && chosen[ci] == i {
+							h = append(h, seq.Op{Kind: seq.GC})
+							ci++
+						}
+						if i < len(hist) {
+							h = append(h, hist[i])
+						}
+					}
+					out = append(out, h)
+					return
+				}
+				rec(pos+1, chosen)
+				if len(chosen) < maxgc {
+					rec(pos+1, append(chosen[:len(chosen):len(chosen)], pos))
+				}
+			}
+			rec(0, nil)
+			return out
+		}
+		return f
+	})
+}
